@@ -16,9 +16,9 @@ def run(prop, tier, seed, t0):
         'evaluations': res.stat('grid_cells') + res.stat('random_sets'),
         'distinct_nontrivial': res.ncells('random_set') + res.ncells('grid_outcome'),
         'rule': 'grid: every ZSTD_cParameter (38) and ZSTD_dParameter (7) x {lo-1,lo,lo+1,0,default,hi-1,hi,hi+1,INT_MIN,INT_MAX} x stages {fresh, after frame, after error, after each reset kind, MT after frame, mid-frame ST/MT} on CCtx, CCtxParams, DCtx, static CCtx; '
-                'random part: distinct accepted parameter sets x 2-3 frames (compress2 / streaming) x session reset x parameter reset x simple-API pairs; distinct non-trivial = distinct random parameter sets exercised + distinct grid outcome classes',
+                'struct setters ZSTD_CCtx_setCParams / setFParams / setParams with in-bounds structs and structs with one field just outside its bounds, idle and mid-frame: accepted => fields read back, others untouched, in force on the next frame; rejected => nothing changed. random part: distinct accepted parameter sets x 2-3 frames (compress2 / streaming) x session reset x parameter reset x simple-API pairs; distinct non-trivial = distinct random parameter sets exercised + distinct grid outcome classes',
         'exhaustive': True, 'grid_cells': res.stat('grid_cells'), 'grid_outcomes': res.cells.get('grid_outcome', {}),
-        'random_sets': res.stat('random_sets'), 'random_sets_rejected_by_setters': res.stat('random_rejected'), 'frames_inspected_with_R': res.stat('frames_inspected'), 'simple_api_pairs': res.stat('simple_api_pairs'),
+        'struct_setter_calls': res.stat('struct_setter_calls'), 'struct_setter_cells': res.cells.get('struct_setter', {}), 'random_sets': res.stat('random_sets'), 'random_sets_rejected_by_setters': res.stat('random_rejected'), 'frames_inspected_with_R': res.stat('frames_inspected'), 'simple_api_pairs': res.stat('simple_api_pairs'),
     }
     assumptions = ['documented normalisations encoded as allowed: level 0 -> default level, 0 < jobSize < 512 KiB -> 512 KiB, "0 = default" accepted outside the bounds',
                    'the mid-frame updatable set is the one documented in zstd.h (7 parameters)', 'frame facts read by the independent decoder R']
